@@ -170,8 +170,10 @@ def stepOp (d : DS) (op implObs : String) : DS × String × List String × List 
     match name with
     | "add" =>
       let kind := kvStr toks "kind"
-      if kind = "bad" ∨ kind = "baduri" then
-        finish { d with addIds := d.addIds ++ [""] } s "err:input" [] ["branch:add-input-error", "rejected"]
+      if kind = "bad" ∨ kind = "baduri" ∨ kind = "oversize" then
+        finish { d with addIds := d.addIds ++ [""] } s "err:input"
+          (if kind = "oversize" ∧ implRes.startsWith "ok" then ["C06 torrent-over-size-limit-accepted"] else [])
+          ["branch:add-input-error", "rejected"]
       else
         let m := metaOf toks
         let o := optsOf toks
